@@ -42,6 +42,16 @@ CLAIMED["C10"] = dict(
     note=TB + "hash values compared only for equality within one process; mixed-base float ordering required only beyond the rounding bound",
     technique="Coq proof + observation-row correspondence")
 
+CLAIMED["C05"] = dict(
+    text="Exhaustive kernel-evaluated theorems over the unit tables REGENERATED from /repo on every run: every unit whose identifier has a "
+         "composition reading (2 242 of 2 537; certificates proposed by the translator, decided in Coq: renders to exactly the identifier, "
+         "dimension equal, coefficient equal to 1e-15 relative / 2e-6 for eleven NIST-rounded customary units) is coherent; base units and a "
+         "coherent unit of every quantity are exactly 1 without offset; ~60 exact anchors, the two offsets, 12 seven-digit anchors, the prefix "
+         "table; tie: registry (names, labels, order), dimension/kind of every quantity and coefficient()/constant() bits (f32,f64) of every "
+         "unit compared with the compiled crate",
+    note=TB + "the ~295 primitive identifiers without a reading are covered only through anchors and dependants (as the property says); known finding F7 excluded by name",
+    technique="Coq proof by exhaustive evaluation over regenerated tables (translator + certificate checking)")
+
 NOT_YET = "check under construction in this build phase; will be claimed once bin/check implements it"
 
 
